@@ -86,7 +86,7 @@ def RawB (t : Table) (cert : RCert) (m : M κ) : Prop :=
     (if enterPending sd m.c then rsuccCovered t cert ⟨m.c.state, true, a⟩ = true
      else rcovered (cert.at m.c.state) a = true)
 
-/-- token-part specification of one state-function invocation -/
+/-- raw-range specification of one state-function invocation -/
 def RawStepP (t : Table) (cert : RCert) (r : M κ × Option Signal) : Prop :=
   match r.2 with
   | none => RawB t cert r.1
@@ -158,7 +158,7 @@ theorem runCalls_raw (hs : SinkSafe env.ops W inp U1) (hs3 : SinkSafe3 env.ops i
 
 /-! ### arm bodies -/
 
-/-- token-part result of an action list with its transition -/
+/-- raw-range result of an action list with its transition -/
 def SeqRaw (t : Table) (cert : RCert) (hb isEof : Bool) (st : StateId) (pos : Nat)
     (r : M κ × Option Signal × SeqEnd) : Prop :=
   (∀ e, r.2.1 = some (.err e) → ErrNot T3 e) ∧
